@@ -63,6 +63,8 @@ FORMS = [
     ('to_str(range(0).to_array().take(ERRI))', 'take with error count'),
     ('to_str(range(0) + ERRS)', 'concatenation of empty with error'),
     ('to_str([1].pop(ERRI))', 'sequence pop'),
+    ('to_str(is_error(partial(uf, ERRI)))', 'partial application with an error argument'),
+    ('to_str(partial(uf, ERRI)(1))', 'calling a partial application built with an error argument'),
     # self calls in tail position with an error argument
     ('to_str(cd(1, 0))', 'tail self-call with an error argument (parameter unused afterwards)'),
     ('to_str(cd(3, 0))', 'tail self-call with an error argument, deeper'),
@@ -183,6 +185,8 @@ class C06(PropertyCheck):
                 full = (PRELUDE + 'fn f()->str { ' + src_t + ' }').replace('GEN', gen).replace('ERRI', erri).replace('ERRJ', errj).replace('ERRB', errb).replace('ERRS', errs)
                 src = full
                 expected = 'second' if not any(k in src_t for k in ('ERRI', 'ERRB', 'ERRS', 'GEN', 'cd(', 'cdn(')) else msg
+                if src_t.startswith('to_str(is_error(partial'):
+                    expected = None          # the partial application itself is the error: is_error(...) is true
                 fjobs.append({'id': f'f{len(fjobs)}', 'src': src, 'calls': ['f']})
                 fmeta.append((desc, expected, src))
         fres = core.run_harness(ctx['binary'], fjobs, os.path.join(workdir, 'hf'))
@@ -193,11 +197,42 @@ class C06(PropertyCheck):
                 print('FORM-NOT-COMPILING', desc, (r and r.get('compile') or '')[:160].replace('\n', ' '), flush=True)
                 continue
             out = r['calls'][0] if r.get('inst') == 'ok' else 'I:' + str(r.get('inst'))
+            if expected is None:
+                if out != 's:true':
+                    violations.append({'what': f'{desc}: a function applied to an error argument must BE that error, not a value that carries it', 'case': {'src': src}, 'impl': out[:200], 'model': 's:true'})
+                else:
+                    distinct += 1
+                continue
             if out != 'E:' + expected:
                 violations.append({'what': f'{desc}: an error component must make the whole result that (leftmost) error; the user function body / output must not run',
                                    'case': {'src': src}, 'impl': out[:200] + ' | stdout=' + repr(r.get('stdout', ''))[:60], 'model': 'E:' + expected})
             elif r.get('stdout'):
                 violations.append({'what': f'{desc}: output was written although an argument was an error (a body ran)', 'case': {'src': src}, 'impl': r.get('stdout')[:100]})
+            else:
+                distinct += 1
+        # ---- (d) a violation raised inside one element of a generator pipeline reaches the host through every adaptor
+        ADAPT = ['', '.repeat()', '.repeat(2)', '.filter((x: int)->{true})', '.skip(0)', '.take_while((x: int)->{true})', '.skip_until((x: int)->{true})', '.enumerate()',
+                 '.windows(1)', '.chunks(1)', '.group((a: int, b: int)->{a == b})', '.distinct()', '.with_count()', '.aggregate((a: int, b: int)->{a + b})',
+                 '.zip(count().to_generator())', '.add([5].to_generator())', '.map((x: int)->{x})']
+        ajobs, ameta = [], []
+        for first in ('[100, 1]', '[1, 100]', '[100]'):
+            for ad in ADAPT:
+                for cons in ('.take(3).to_array().len()', '.take(3).len()', '.take(3).last()'):
+                    src = ('fn deep(n: int)->int { if(n == 0, 0, 1 + deep(n - 1)) }\n'
+                           f'fn f()->str {{ to_str({first}.to_generator().map(deep){ad}{cons}) }}')
+                    ajobs.append({'id': f'a{len(ajobs)}', 'src': src, 'calls': ['f'], 'limits': {'depth': 30, 'search': 100000}})
+                    ameta.append((first, ad, cons))
+        ares = core.run_harness(ctx['binary'], ajobs, os.path.join(workdir, 'hv'))
+        for job, (first, ad, cons) in zip(ajobs, ameta):
+            r = ares.get(job['id'])
+            n_eval += 1
+            if r is None or r.get('compile') != 'ok':
+                print('ADAPTOR-FORM-NOT-COMPILING', ad, (r and r.get('compile') or '')[:160].replace('\n', ' '), flush=True)
+                continue
+            out = r['calls'][0]
+            if not out.startswith('X:MaximumStackDepth'):
+                violations.append({'what': f'a stack-depth violation raised inside an element of the pipeline {first}.map(deep){ad} was swallowed: the host got a result instead',
+                                   'case': {'src': job['src'], 'limits': job['limits']}, 'impl': out[:200], 'model': 'X:MaximumStackDepth'})
             else:
                 distinct += 1
         ctx['coverage'] = {'evaluations': n_eval, 'distinct_nontrivial': distinct, 'samples': samples, 'injection_programs': len(jobs), 'violation_points': len(vjobs), 'forms': len(fjobs)}
